@@ -184,7 +184,7 @@ def apply_in_op(op, inp, w, tmp, uid):
     elif name == "disp_reversed":
         if not isinstance(inp["left"].get("disp"), list):
             return False
-        a, b = inp["left"]["disp"]
+        a, b = w["disp"]["min"], w["disp"]["max"]  # from the world: applying the operator twice must not undo it
         inp["left"]["disp"] = [b + 1, a]
     elif name in ("grid_one_band", "grid_three_bands", "grid_wrong_size", "grid_min_gt_max"):
         lo = np.full((rows, cols), -2, dtype=np.float32)
